@@ -42,7 +42,12 @@ theorem assemble_eq_merge (ps : List Piece) : assemble ps = mergeGo [] ps := by
 
 /-! ### resolution with one namespace -/
 
-/-- the token in expat's vocabulary when the default namespace is `u` everywhere -/
+/-- how an XML declaration starts between `<?` and `?>` -/
+def xmlDeclPfx : Str := ['x', 'm', 'l', ' ']
+
+/-- the token in expat's vocabulary when the default namespace is `u` everywhere; a processing
+    instruction is split into target and data (white space between them dropped), the XML
+    declaration and the DOCTYPE are parsed into their fields -/
 def xmlMapTok (u : Str) : Tok → List XTok
   | .start n a sc =>
       if sc then [.start ⟨u, n⟩ ((resolveAttrs a).getD []), .end_ ⟨u, n⟩]
@@ -50,7 +55,10 @@ def xmlMapTok (u : Str) : Tok → List XTok
   | .end_ n => [.end_ ⟨u, n⟩]
   | .text s => [.text s]
   | .comment s => [.comment s]
-  | _ => []
+  | .pi s =>
+      if xmlDeclPfx.isPrefixOf s then (parseXmlDecl s).toList
+      else [.pi (takeUntil isSpace s).1 ((takeUntil isSpace s).2.dropWhile isSpace)]
+  | .doctype s => (parseDoctype s).toList.map fun x => .doctype x.1 x.2.1 x.2.2
 
 /-- the attributes of a start tag at depth `d` fit a document whose only namespace is `u`:
     the outermost elements declare it (unless it is empty), nobody declares anything else, and
@@ -72,8 +80,8 @@ def scopedP (u : Str) : Nat → List Piece → Bool
   | d, .tok (.end_ _) :: ps => d != 0 && scopedP u (d - 1) ps
   | d, .tok (.text _) :: ps => d != 0 && scopedP u d ps
   | d, .tok (.comment _) :: ps => scopedP u d ps
-  | _, .tok (.pi _) :: _ => false
-  | _, .tok (.doctype _) :: _ => false
+  | d, .tok (.pi s) :: ps => (!xmlDeclPfx.isPrefixOf s || (parseXmlDecl s).isSome) && scopedP u d ps
+  | d, .tok (.doctype s) :: ps => (parseDoctype s).isSome && scopedP u d ps
 
 theorem xmlView_text (u : Str) (d : Nat) (hd : d ≠ 0) (s : Str) (rest : List Tok) :
     xmlView (List.replicate d u) (.text s :: rest) =
@@ -143,6 +151,29 @@ theorem xmlView_comment (u : Str) (d : Nat) (s : Str) (rest : List Tok) :
   simp only [xmlView, xmlMapTok]
   cases xmlView (List.replicate d u) rest <;> simp
 
+theorem xmlView_pi (u : Str) (d : Nat) (s : Str) (rest : List Tok)
+    (h : (!xmlDeclPfx.isPrefixOf s || (parseXmlDecl s).isSome) = true) :
+    xmlView (List.replicate d u) (.pi s :: rest) =
+      (xmlView (List.replicate d u) rest).map (fun r => xmlMapTok u (.pi s) ++ r) := by
+  by_cases hp : xmlDeclPfx.isPrefixOf s = true
+  · have hs : (parseXmlDecl s).isSome = true := by simpa [hp] using h
+    obtain ⟨x, hx⟩ := Option.isSome_iff_exists.mp hs
+    have hp' : List.isPrefixOf ['x', 'm', 'l', ' '] s = true := hp
+    simp only [xmlView, hp', ↓reduceIte, hx, xmlMapTok, hp, Option.toList_some]
+    cases xmlView (List.replicate d u) rest <;> simp
+  · have hp2 : xmlDeclPfx.isPrefixOf s = false := Bool.eq_false_iff.mpr hp
+    have hp' : List.isPrefixOf ['x', 'm', 'l', ' '] s = false := hp2
+    simp only [xmlView, hp', Bool.false_eq_true, ↓reduceIte, xmlMapTok, hp2]
+    cases xmlView (List.replicate d u) rest <;> simp
+
+theorem xmlView_doctype (u : Str) (d : Nat) (s : Str) (rest : List Tok) (h : (parseDoctype s).isSome = true) :
+    xmlView (List.replicate d u) (.doctype s :: rest) =
+      (xmlView (List.replicate d u) rest).map (fun r => xmlMapTok u (.doctype s) ++ r) := by
+  obtain ⟨x, hx⟩ := Option.isSome_iff_exists.mp h
+  obtain ⟨n, p, q⟩ := x
+  simp only [xmlView, hx, xmlMapTok, Option.toList_some, List.map_cons, List.map_nil]
+  cases xmlView (List.replicate d u) rest <;> simp
+
 /-- namespace resolution of well-scoped pieces: every element is in namespace `u` -/
 theorem xmlView_mergeGo (u : Str) (ps : List Piece) : ∀ (d : Nat) (buf : Str), (buf ≠ [] → d ≠ 0) →
     scopedP u d ps = true →
@@ -181,8 +212,14 @@ theorem xmlView_mergeGo (u : Str) (ps : List Piece) : ∀ (d : Nat) (buf : Str),
         simp only [scopedP] at h
         rw [xmlView_comment u d, ih _ [] (by intro hh; exact absurd rfl hh) h]
         simp [List.flatMap_append]
-      | pi s => simp [scopedP] at h
-      | doctype s => simp [scopedP] at h
+      | pi s =>
+        simp only [scopedP, Bool.and_eq_true] at h
+        rw [xmlView_pi u d s _ h.1, ih _ [] (by intro hh; exact absurd rfl hh) h.2]
+        simp [List.flatMap_append]
+      | doctype s =>
+        simp only [scopedP, Bool.and_eq_true] at h
+        rw [xmlView_doctype u d s _ h.1, ih _ [] (by intro hh; exact absurd rfl hh) h.2]
+        simp [List.flatMap_append]
 
 /-! ### the pieces of a forest in one namespace are well scoped -/
 
